@@ -9,8 +9,10 @@
        the next token or the close, the parser (ANY consumer: it performs some number k of receives) blocks only
        in a receive, the deferred drain of Parse receives what the parser left, so every interleaving has at most
        max(#tokens, k) + 3 actions and ends with both goroutines returned.
-   What is NOT proved here: that the parser functions themselves return for every token list (`parse_total`, the
-   parser model Syn/Parse.v belongs to property C03 and is tied in by its owner); wall-clock time and the absence of
+     - the parser (model Syn/Parse.v of parser2.go, property C03, tied to the implementation by C03's correspondence
+       run) returns an AST or an error for EVERY token list and EVERY configuration - never a panic (the index into
+       the operator table is always in range), and fuel (2*|ops|+12)*(|tokens|+2), linear in the token count, suffices.
+   What is NOT proved here: GenerateFunc (observed on every input that parses); wall-clock time and the absence of
    a deadlock in the Go runtime are observed by the correspondence run (isolated worker processes with a watchdog).
 
    Vocabulary: ops_ok cfg = no operator contains NUL (Lex/TokProofs.v); Conc/TokChan.v: init toks k = Parse has started,
@@ -18,6 +20,7 @@
    tr are possible one after the other from s in the repaired system (with the deferred drain) and lead to s'. *)
 From P2 Require Import Base.Prelude Lex.Token Lex.Tok Lex.TokProofs.
 From P2 Require Conc.TokChan Conc.TokChanProofs Conc.TokSysProofs.
+From P2 Require Syn.Parse Syn.ParseTotal.
 Local Open Scope N_scope.
 
 (* scanning is total, with fuel linear in the input *)
@@ -48,6 +51,18 @@ Theorem parse_cannot_deadlock : forall cfg rs, ops_ok cfg ->
     /\ (TokChan.final s = true \/ exists a s', TokChan.step true s a = Some s').
 Proof. exact TokSysProofs.parse_cannot_deadlock_lem. Qed.
 
+(* the parser returns an AST or an error for every configuration (the empty operator table and a prefix operator that
+   is also the last binary operator included), every identifier chain and every token list, with linear fuel *)
+Theorem parse_total : forall (pc : Parse.pcfg) ids ts f, (f >= Parse.fuel_for pc ts)%nat ->
+  match Parse.parse_fuel pc f ids ts with Parse.POk _ | Parse.PErr => True | Parse.PPanic | Parse.POOF => False end.
+Proof. exact ParseTotal.parse_total. Qed.
+
+(* scanner and parser composed: for every rune string the tokens of the scanner model, handed to the parser model,
+   yield an AST or an error *)
+Theorem scan_then_parse_total : forall (tc : tcfg) (pc : Parse.pcfg) ids rs,
+  match Parse.parse pc ids (map strip_line (tokenize tc rs)) with Parse.POk _ | Parse.PErr => True | Parse.PPanic | Parse.POOF => False end.
+Proof. exact (fun tc pc ids rs => ParseTotal.parse_total pc ids (map strip_line (tokenize tc rs)) _ (le_n _)). Qed.
+
 (* non-vacuity: an unterminated block comment, an invalid-UTF-8 replacement rune inside an operator, a NUL, an
    unterminated string; comments on *)
 Example C04_nonvacuous :
@@ -68,3 +83,5 @@ Print Assumptions tokenize_total.
 Print Assumptions scan_steps_linear.
 Print Assumptions no_blocking.
 Print Assumptions parse_cannot_deadlock.
+Print Assumptions parse_total.
+Print Assumptions scan_then_parse_total.
